@@ -540,3 +540,218 @@ impl Check for NdlNoPanic {
         Ok(())
     }
 }
+
+// ------------------------------------------------------------------------------------------------
+// C19 (run part): a valid description builds the described simulation
+
+pub struct NdlRun;
+
+fn arg(k: &str, v: impl Into<String>) -> (String, String) {
+    (k.to_string(), v.into())
+}
+
+impl Check for NdlRun {
+    fn id(&self) -> &'static str {
+        "C19.run"
+    }
+    fn rule(&self) -> String {
+        "generated: runnable descriptions: 1..2 networks with public ip/range entries; either (A) 1..3 receiving machines with a capture application (type count or message, all sharing one factory so that the run exits exactly when every capture is satisfied), 1..4 sending machines (count 1..4, send_message to a receiver by machine name or by address, optionally through a forward machine), protocols listed explicitly in any order or added by auto-protocol, ARP on every machine or on none; or (B) a ping_pong pair; rendered in every indentation / line-ending / case variant of C19.parse; each capture expects exactly the number of messages (or the exact message) the described senders are told to send to it; oracle: generate_and_run_sim returns Some(Exited) under virtual time within the timeout, never None (parse error), never TimedOut (a described message did not arrive), and no task panics. non-trivial: >= 2 machines wired by name, or a sender count > 1, or a forward hop, or ARP. distinct: hash of decoded description".into()
+    }
+    fn assumptions(&self) -> Vec<String> {
+        vec![
+            "only argument combinations the generator documents are produced (ports, ip inside the machine's network pool, counts only on sending machines, no arguments on the ARP protocol entry)".into(),
+            "forward machines are only generated without ARP (Forward opens its session before the barrier: open known finding of C13)".into(),
+        ]
+    }
+    fn max_entropy(&self) -> usize {
+        300
+    }
+    fn run(&self, e: &mut Entropy, ctx: &mut Ctx) -> Result<(), Failure> {
+        let r = gen_render(e);
+        let kind_b = e.chance(1, 6);
+        let arp = !kind_b && e.chance(1, 3);
+        let auto = e.chance(1, 3);
+        let nnets = 1 + e.choose(2);
+        let mut nets = vec![];
+        for i in 0..nnets {
+            let ips = if e.bool() {
+                vec![vec![arg("range", format!("123.45.{}.10-90", 60 + i))]]
+            } else {
+                vec![vec![arg("range", format!("123.45.{}.10-40", 60 + i))], vec![arg("range", format!("123.45.{}.41-90", 60 + i))], vec![arg("ip", format!("123.45.{}.200", 60 + i))]]
+            };
+            nets.push(NetT { args: vec![arg("id", format!("{}", i + 1))], ips });
+        }
+        let use_auto = auto && arp; // auto-protocol always brings ARP, so it is only used in ARP descriptions
+        let protocols = |e: &mut Entropy| -> Vec<Args> {
+            let mut p = vec![vec![arg("name", "IPv4")], vec![arg("name", "UDP")]];
+            if arp {
+                p.push(vec![arg("name", "ARP")]);
+            }
+            if use_auto {
+                // auto-protocol adds IPv4 and ARP when they are missing
+                p.retain(|x| x[0].1 == "UDP" || e.bool());
+            }
+            if e.bool() {
+                p.reverse();
+            }
+            p
+        };
+        let machine_nets = |e: &mut Entropy| -> Vec<Args> {
+            let mut v = vec![vec![arg("id", "1")]];
+            if nnets == 2 && e.chance(1, 3) {
+                v.push(vec![arg("id", "2")]);
+            }
+            v
+        };
+        let order = |e: &mut Entropy| *e.pick(&[[0, 1, 2], [0, 2, 1], [1, 0, 2], [1, 2, 0], [2, 0, 1], [2, 1, 0]]);
+        let margs = |name: Option<String>, count: Option<usize>| -> Args {
+            let mut a = vec![];
+            if let Some(n) = name {
+                a.push(arg("name", n));
+            }
+            if let Some(c) = count {
+                a.push(arg("count", format!("{c}")));
+            }
+            if use_auto {
+                a.push(arg("auto-protocol", "true"));
+            }
+            a
+        };
+        let mut machines: Vec<MachT> = vec![];
+        let mut by_name = false;
+        let mut forward_hop = false;
+        let mut big_count = false;
+        if kind_b {
+            let p1 = format!("{}", 2000 + e.choose(1000));
+            let p2 = format!("0x{:x}", 0xb000 + e.choose(0xfff));
+            let to2 = if e.bool() {
+                by_name = true;
+                "pong".to_string()
+            } else {
+                "123.45.60.12".to_string()
+            };
+            machines.push(MachT { args: margs(Some("ping".into()), None), networks: machine_nets(e), protocols: protocols(e), applications: vec![vec![arg("name", "ping_pong"), arg("ip", "123.45.60.11"), arg("to", to2), arg("local_port", p1.clone()), arg("remote_port", p2.clone()), arg("starter", "true")]], order: order(e) });
+            machines.push(MachT { args: margs(Some("pong".into()), None), networks: machine_nets(e), protocols: protocols(e), applications: vec![vec![arg("name", "ping_pong"), arg("ip", "123.45.60.12"), arg("to", "123.45.60.11"), arg("local_port", p2), arg("remote_port", p1), arg("starter", "false")]], order: order(e) });
+            if e.bool() {
+                machines.swap(0, 1);
+                // names are resolved in a first pass, so the order of machines does not matter
+            }
+        } else {
+            let nrecv = 1 + e.choose(3);
+            let nsend = 1 + e.choose(4);
+            let with_forward = !arp && e.chance(1, 3);
+            // who sends what to whom
+            let mut expected: Vec<usize> = vec![0; nrecv];
+            let mut sender_specs = vec![];
+            let message = {
+                let mut esc = false;
+                let m = gen_value(e, &mut esc).replace('\n', " ").replace('\t', " ");
+                if m.trim().is_empty() {
+                    "hello".to_string()
+                } else {
+                    m
+                }
+            };
+            for s in 0..nsend {
+                let to = e.choose(nrecv);
+                let count = if e.chance(1, 3) { 2 + e.choose(3) } else { 1 };
+                if count > 1 {
+                    big_count = true;
+                }
+                expected[to] += count;
+                sender_specs.push((s, to, count));
+            }
+            let port = |i: usize| format!("0x{:x}", 0xbe00 + i);
+            for rcv in 0..nrecv {
+                let ip = format!("123.45.60.{}", 20 + rcv);
+                let mut app = vec![arg("name", "capture"), arg("ip", ip), arg("port", port(rcv)), arg("factory", "f1")];
+                if expected[rcv] == 1 && e.bool() {
+                    app.push(arg("type", "message"));
+                    app.push(arg("message", message.clone()));
+                } else if expected[rcv] >= 1 {
+                    app.push(arg("type", "count"));
+                    app.push(arg("message_count", format!("{}", expected[rcv])));
+                } else {
+                    // nobody sends to it: it would never be satisfied; give it no capture but a second sender target instead
+                    continue;
+                }
+                if e.bool() {
+                    app.reverse();
+                }
+                machines.push(MachT { args: margs(Some(format!("recv{rcv}")), None), networks: machine_nets(e), protocols: protocols(e), applications: vec![app], order: order(e) });
+            }
+            let fwd_target = if with_forward { Some(sender_specs[0].1) } else { None };
+            if let Some(t) = fwd_target {
+                forward_hop = true;
+                machines.push(MachT {
+                    args: margs(Some("fwd".into()), None),
+                    networks: machine_nets(e),
+                    protocols: protocols(e),
+                    applications: vec![vec![arg("name", "forward"), arg("ip", "123.45.60.50"), arg("to", if e.bool() { by_name = true; format!("recv{t}") } else { format!("123.45.60.{}", 20 + t) }), arg("local_port", "0xf0f0"), arg("remote_port", port(t))]],
+                    order: order(e),
+                });
+            }
+            for (s, to, count) in &sender_specs {
+                let via_forward = fwd_target.is_some() && *s == 0;
+                let (to_arg, port_arg) = if via_forward {
+                    (if e.bool() { by_name = true; "fwd".to_string() } else { "123.45.60.50".to_string() }, "0xf0f0".to_string())
+                } else if e.bool() {
+                    by_name = true;
+                    (format!("recv{to}"), port(*to))
+                } else {
+                    (format!("123.45.60.{}", 20 + to), port(*to))
+                };
+                let mut app = vec![arg("name", "send_message"), arg("message", message.clone()), arg("to", to_arg), arg("port", port_arg)];
+                if e.chance(1, 4) && *count == 1 {
+                    app.push(arg("ip", format!("123.45.60.{}", 70 + s)));
+                }
+                if e.bool() {
+                    app.reverse();
+                }
+                machines.push(MachT { args: margs(if e.bool() { Some(format!("send{s}")) } else { None }, if *count > 1 || e.chance(1, 4) { Some(*count) } else { None }), networks: machine_nets(e), protocols: protocols(e), applications: vec![app], order: order(e) });
+            }
+            // receivers need not come first: names are collected in a first pass
+            if e.bool() {
+                machines.reverse();
+            }
+        }
+        let tree = Tree { nets, machines, machines_first: e.chance(1, 4) };
+        let text = render_lines(&lines_of(&tree), &r);
+        let path = write_case_file(&text, "run");
+        let p2 = path.clone();
+        let (out, panics) = crate::sim::run_virtual(async move { elvis::ndl::generate_and_run_sim(p2, Some(std::time::Duration::from_secs(10))).await });
+        let _ = std::fs::remove_file(&path);
+        if ctx.want_desc {
+            ctx.desc = Some(json!({"text": text, "result": format!("{out:?}")}));
+        }
+        if !panics.is_empty() {
+            let mut f = panic_failure(&panics);
+            f.oracle = "no_panic_in_simulation".into();
+            f.message = format!("{}\ntext:\n{text}", f.message);
+            return Err(f);
+        }
+        match out {
+            Some(Some(elvis_core::ExitStatus::Exited)) => {}
+            Some(None) => fail!("valid_description_runs", "rejected", "a valid description was rejected by the parser; text:\n{text}"),
+            Some(Some(other)) => fail!("valid_description_runs", if other == elvis_core::ExitStatus::TimedOut { "timed_out" } else { "wrong_status" }, "running the description returned {other:?} instead of Exited: a described message did not arrive; text:\n{text}"),
+            None => fail!("valid_description_runs", "panicked", "the run panicked; text:\n{text}"),
+        }
+        ctx.nontrivial = by_name || big_count || forward_hop || arp;
+        if by_name {
+            ctx.class("wired_by_name");
+        }
+        if big_count {
+            ctx.class("sender_count_above_1");
+        }
+        if forward_hop {
+            ctx.class("forward_hop");
+        }
+        if arp {
+            ctx.class("with_arp");
+        }
+        if kind_b {
+            ctx.class("ping_pong_pair");
+        }
+        Ok(())
+    }
+}
